@@ -183,6 +183,7 @@ def FinAt (cfg : Cfg) (url : Bytes → Bytes → Option UrlView) (s : Bytes) (e 
   | .rej st status site => st = e ∧ e < s.length ∧ step cfg url (s.drop e) = .rej status site
   | .connect st h => st = e ∧ e < h ∧ h ≤ s.length ∧ step cfg url (s.drop e) = .connect (s.drop h)
   | .throws st => st = e ∧ step cfg url (s.drop e) = .throws
+  | .closing st => st = e
   | .fuel => False
 
 theorem loop_spec (cfg : Cfg) (url : Bytes → Bytes → Option UrlView) (s : Bytes) :
@@ -243,12 +244,18 @@ theorem loop_spec (cfg : Cfg) (url : Bytes → Bytes → Option UrlView) (s : By
         have hrl := hr.length_le
         have hrestl := hrest.length_le
         obtain ⟨ihc, ihf⟩ := ih rest hrest2 (by omega)
-        dsimp only
-        refine ⟨?_, ?_⟩
-        · refine Chain.cons ⟨_, _, _, d⟩ _ (by dsimp only; omega) (by dsimp only; omega) (by dsimp only; omega) ?_ ihc
-          dsimp only
+        have hstep : step cfg url (s.drop (s.length - inBuf.length)) =
+            .msg (s.drop (s.length - r.length)) (s.drop (s.length - rest.length)) d := by
           rw [← hdrop, ← suffix_eq_drop hr2, ← suffix_eq_drop hrest2]
           exact hst
-        · simpa [chainEnd] using ihf
+        split
+        · dsimp only
+          refine ⟨?_, ?_⟩
+          · exact Chain.cons ⟨_, _, _, d⟩ _ (by dsimp only; omega) (by dsimp only; omega) (by dsimp only; omega) hstep ihc
+          · simpa [chainEnd] using ihf
+        · dsimp only
+          refine ⟨?_, ?_⟩
+          · exact Chain.cons ⟨_, _, _, d⟩ _ (by dsimp only; omega) (by dsimp only; omega) (by dsimp only; omega) hstep (Chain.nil _)
+          · simp [chainEnd, FinAt]
 
 end SquidModel.Smuggle
